@@ -761,11 +761,11 @@ def _spelling_ob(tname):
         E = _sym.Engine(ctx, max_paths=50000, incremental=True)
         found = E.explore(h)
         seen = set()
-        for label, m, pc in found:
+        for (label, m, pc), A in list(zip(found, E.autosnaps)):
             if label in seen:
                 continue
             seen.add(label)
-            ctx.report(label, {"program": _choice.value_in_model(m, h.prog), "canonical": canonical}, replay_spelling)
+            ctx.report(label, {"program": _choice.value_in_model(m, A["prog"]), "canonical": canonical}, replay_spelling)
         if E.reached.get("parsed"):
             ctx.twins += 1
         else:
